@@ -41,6 +41,11 @@ func init() {
 		one("MatMul", "", "w,x", []string{"w:2,2"}, "x:1,2,3:0", 0)
 		one("Conv", "", "x,k,b", []string{"k:2,1,2,2", "b:2"}, "x:1,1,3,3:0", 0)
 		one("Conv", "strides=2", "x,k", []string{"k:1,2,2"}, "x:1,2,4:0", 0)
+		// padding computed from the input's extents: it must come from the spatial ones, not from the batch size
+		one("Conv", "auto_pad=SAME_UPPER;strides=2", "x,k", []string{"k:1,1,3"}, "x:1,1,5:0", 0)
+		one("Conv", "auto_pad=SAME_LOWER;strides=2", "x,k", []string{"k:1,1,3"}, "x:1,1,6:0", 0)
+		one("Conv", "auto_pad=SAME_UPPER;strides=2,3", "x,k,b", []string{"k:1,2,2,3", "b:1"}, "x:1,2,3,4:0", 0)
+		one("Conv", "pads=1,0,0,1;strides=2,1;dilations=1,2", "x,k", []string{"k:1,1,2,2"}, "x:1,1,3,4:0", 0)
 		for _, op := range []string{"Add", "Mul", "Sub", "Div"} {
 			one(op, "", "x,w", []string{"w:2"}, "x:1,2:0", 0)
 			one(op, "", "w,x", []string{"w:2,1"}, "x:1,2,2:0", 0)
